@@ -49,7 +49,7 @@ def vmapSet (mesh : Mesh) (nvdim : Nat) (vdims : Option (List String))
     else if nvdim = mesh.region.ndim then
       match vdims with
       | some vs => .ok (List.zip vs mesh.region.dims)
-      | none => .error .type
+      | none => .ok []          -- labels removed (`vdims=[]`): no default mapping (repo fix d1932c87, D46)
     else .ok []
   | some mp =>
     if mp.length = 1 ∧ nvdim = 1 ∧ vdims = none then .ok []
